@@ -44,7 +44,7 @@ def _lib_job(job):
     try:
         with deadline(20.0):
             out, rc = library_run(*job["lib"])
-        return {"v": "%s/%s" % (digest(out), rc), "raised": False, "exc": ""}
+        return {"v": "%s/%s" % (digest(out.rstrip()), rc), "raised": False, "exc": ""}
     except Expired:
         return {"v": "", "raised": True, "exc": "timeout"}
     except Exception as ex:
